@@ -54,8 +54,20 @@ KNOWN_DELETED = "C02-deleted-object-in-formula-globals"
 KNOWN_DELSPACE = "C02-deleted-space-uncached-cells"
 
 
+KNOWN_NAMEREAD = "C02-space-name-read-through-reference"
+
+
 def classify(deep_hit, live=None, query=None, result=None, want=None, ops=None):
     """known findings are recognised by their specific trigger"""
+    if (live is not None and ops is not None and result and want and result.startswith("ok")
+            and (want.startswith("ok") or want.startswith("err Formula Deleted"))
+            and any(o and o[0] in ("rename_space", "del_space", "del_mref", "del_ref") for o in ops)
+            and S.reads_space_name_through_reference(live)):
+        # a space was renamed (or deleted) in a model one of whose formulas reads the NAME of a space through an
+        # object-valued reference to it (`X.fullname`): no dependency is recorded for a read of an attribute of the
+        # space object itself; `on_rename` / `on_delete` clear the cells of the spaces concerned only, the reader
+        # elsewhere (and what was computed from it) keeps the value computed from the old name / the deleted space
+        return KNOWN_NAMEREAD
     if (want is not None and want.startswith("err Formula Deleted") and result and result.startswith("ok")
             and ops is not None and S.deleted_space_held_uncached(ops)):
         # a space holding an uncached cells was deleted: on_delete clears the values the cells of the space
@@ -330,7 +342,10 @@ def run(ctx, out):
     sub = core.Outcome()
     xstats = X.run_family(ctx, sub, XCFG, xoracle, 70, 1500, corpus_name="C02exec", structured=scenario_cases(ctx))
     S.merge(out, sub)
-    S.run_struct(ctx, out, "C02", CFG, H, 60, 1200, RULE, ops_range=(14, 30))
+    # thorough tier: also the program whose formulas read the NAME of another space through a reference (known finding
+    # C02-space-name-read-through-reference; the quick tier has its two corpus witnesses - the check is at its time limit)
+    cfg = dict(CFG, enum_motifs=S.MOTIFS_NAME + S.MOTIFS_NAME_REF) if ctx.tier == "thorough" else CFG
+    S.run_struct(ctx, out, "C02", cfg, H, 60, 1200, RULE, ops_range=(14, 30))
     # histories inside the vocabulary of the combined machine (Edit/Machine.lean): compared to the end
     out.coverage["combined_machine"] = dict(editworld.run_family(ctx, out))
     out.coverage["value_layer_mechanism"] = sub.coverage
